@@ -927,6 +927,7 @@ type pRun struct {
 	formatted  string
 	trace      []int
 	fileSet    *parser.SourceFileSet
+	bytecode   *ugo.Bytecode
 }
 
 func posRunProg(p *pProg, optimize, roundTrip bool) (res pRun) {
@@ -960,6 +961,7 @@ func posRunProg(p *pProg, optimize, roundTrip bool) (res pRun) {
 		}
 		bc = bc2
 	}
+	res.bytecode = bc
 	_, err = ugo.NewVM(bc).Run(nil)
 	if err == nil {
 		res.noError = true
@@ -1049,6 +1051,58 @@ func posJudge(p *pProg, res pRun) (what, kind string) {
 	return "", ""
 }
 
+// posCovJudge checks on the bytecode the real compiler produced (optimizer on or off, functions
+// of source modules included) what Props/C16 `compileFile_cov` proves of the compile model: every
+// instruction start of every compiled function has its own source-map entry; a CALL / CALLNAME is
+// followed by an instruction; and - the scripts have one statement per line - the entry of that
+// instruction (what a caller frame reports: SourcePos(frame.ip+1) = SourcePos(p+3)) lies on the
+// line of the entry of the call itself.  Returns "" when all of it holds.
+func posCovJudge(bc *ugo.Bytecode) (what string) {
+	defer func() {
+		if r := recover(); r != nil {
+			what = "panic while walking the bytecode: " + fmt.Sprint(r)
+		}
+	}()
+	fns := []*ugo.CompiledFunction{bc.Main}
+	for _, c := range bc.Constants {
+		if f, ok := c.(*ugo.CompiledFunction); ok {
+			fns = append(fns, f)
+		}
+	}
+	lineOf := func(p int) string {
+		if p == 0 {
+			return "-"
+		}
+		fp := bc.FileSet.Position(parser.Pos(p))
+		return fmt.Sprintf("%s:%d", fp.Filename, fp.Line)
+	}
+	for fi, f := range fns {
+		starts := map[int]bool{}
+		var calls []int
+		ugo.IterateInstructions(f.Instructions, func(pos int, op ugo.Opcode, _ []int, _ int) bool {
+			starts[pos] = true
+			if op == ugo.OpCall || op == ugo.OpCallName {
+				calls = append(calls, pos)
+			}
+			return true
+		})
+		for p := range starts {
+			if _, ok := f.SourceMap[p]; !ok {
+				return fmt.Sprintf("function %d: instruction at %d has no source-map entry", fi, p)
+			}
+		}
+		for _, p := range calls {
+			if !starts[p+3] {
+				return fmt.Sprintf("function %d: no instruction after the call at %d", fi, p)
+			}
+			if a, b := lineOf(f.SourceMap[p]), lineOf(f.SourceMap[p+3]); a != b {
+				return fmt.Sprintf("function %d: call at %d recorded at %s, the next instruction (reported for the caller frame) at %s", fi, p, a, b)
+			}
+		}
+	}
+	return ""
+}
+
 func shapeSig(p *pProg) string {
 	// the features that select a code path in throw/addTrace (other features are folded)
 	sel := map[string]bool{"recursion": true, "in-finally": true, "in-catch": true, "in-catch-finally": true,
@@ -1072,6 +1126,12 @@ func posOracle(c *Ctx, p0 *pProg) {
 			for _, rt := range []bool{false, true} {
 				res := posRunProg(p, optimize, rt)
 				what, kind := posJudge(p, res)
+				if what == "" && res.bytecode != nil && (kind == "" || kind == "no-error") {
+					if cw := posCovJudge(res.bytecode); cw != "" {
+						what, kind = cw, "cov"
+					}
+					c.Count("oracle:cov-checked")
+				}
 				c.Count("oracle:" + map[string]string{"": "agree"}[kind] + kind)
 				if what == "" {
 					continue
